@@ -2,11 +2,13 @@ package input
 
 import (
 	"fmt"
+	"reflect"
 	"sort"
 	"strings"
 	"testing"
 
 	"github.com/gdamore/tcell/v2"
+	"github.com/gdamore/tcell/v2/terminfo"
 	"verif.local/hx"
 	"verif.local/simrt"
 )
@@ -285,6 +287,17 @@ func (r *c03run) run() error {
 		c := c
 		check1("alt", nil, "\x1b"+string([]byte{c}), 0, func(got string) bool { return got == runeDesc(rune(c), tcell.ModAlt) }, "ESC + rune")
 	}
+	// ESC + a multi-byte character, whole and cut anywhere (also inside the character)
+	for _, c := range []rune{'é', '€'} {
+		c := c
+		s := "\x1b" + string(c)
+		for sp := 0; sp < len(s); sp++ {
+			if !thorough && sp != 0 && sp != 2 {
+				continue
+			}
+			check1("alt", nil, s, sp, func(got string) bool { return got == runeDesc(c, tcell.ModAlt) }, "ESC + multi-byte rune")
+		}
+	}
 
 	// (6b) the same keys without the prefix again: an Alt-prefixed decode
 	// must leave nothing behind.
@@ -540,6 +553,60 @@ func (r *c03run) runPolled() error {
 	return nil
 }
 
+// runEdited: the application hands the screen its own edited copy of the
+// description, under the same name: F1..F4 send CSI 11~..14~ (where that is
+// not what they send anyway and clashes with nothing else).  Every screen
+// decodes by the description it was given.
+func (r *c03run) runEdited() error {
+	base := hx.Term(r.term, false)
+	seqs0, _ := keySeqs(base)
+	edits := map[string]string{}
+	for i, f := range []string{"KeyF1", "KeyF2", "KeyF3", "KeyF4"} {
+		seq := fmt.Sprintf("\x1b[1%d~", i+1)
+		clash := false
+		for _, ks := range seqs0 {
+			if strings.HasPrefix(ks.Seq, seq) || strings.HasPrefix(seq, ks.Seq) {
+				clash = true
+			}
+		}
+		if !clash {
+			edits[f] = seq
+		}
+	}
+	if len(edits) == 0 {
+		return nil
+	}
+	hx.TiEdit = func(ti *terminfo.Terminfo) {
+		for f, seq := range edits {
+			reflect.ValueOf(ti).Elem().FieldByName(f).SetString(seq)
+		}
+	}
+	defer func() { hx.TiEdit = nil }()
+	cfg := hx.Config{Term: r.term, W: 80, H: 24, Go123: r.go123, GapScale: 1, MapMode: r.mode, MapSeed: r.seed, AltScreen: true}
+	w, err := newIW(cfg, &simrt.Chooser{})
+	if err != nil {
+		return err
+	}
+	for i, f := range []string{"KeyF1", "KeyF2", "KeyF3", "KeyF4"} {
+		seq, ok := edits[f]
+		if !ok {
+			continue
+		}
+		w.feedHold([]byte(seq))
+		w.settle()
+		all := w.take()
+		r.cases++
+		if want := keyDesc(tcell.KeyF1+tcell.Key(i), 0); len(all) != 1 || all[0] != want {
+			r.fail("C03/key", "edited", seq, 0, "a screen given an edited copy of the description (same name, %s = %q) decoded %q to %v", f, seq, seq, all)
+		}
+	}
+	pn, cerr := w.finish()
+	for _, p := range pn {
+		r.fail("C03/key", "panic", "", 2, "edited description: panic while decoding: %s", p)
+	}
+	return cerr
+}
+
 func TestC03(t *testing.T) {
 	names := hx.TermNames()
 	wi, wn := hx.Worker()
@@ -589,6 +656,12 @@ func TestC03(t *testing.T) {
 			if err := r.run(); err != nil {
 				hx.Disarm()
 				t.Fatalf("HARNESS: %s: %v", name, err)
+			}
+			if r.mode == 3 || r.mode == 1 {
+				if err := r.runEdited(); err != nil {
+					hx.Disarm()
+					t.Fatalf("HARNESS: %s (edited description): %v", name, err)
+				}
 			}
 			if r.mode == 4 || r.mode == 2 {
 				if err := r.runPolled(); err != nil {
